@@ -50,7 +50,9 @@ var mPkgAddrs = []string{"git::https://example.com/p0.git", "git::https://exampl
 	"git::https://example.com/p0.git//sub", "http://example.com/x.tgz", "not an address", "", "git::https://EXAMPLE.com/p0.git", "github.com/org/repo"}
 var mRegAddrs = []string{"example.com/ns/m0/aws", "ns/m1/aws", "example.com/ns/m0/aws//sub", "bad", ""}
 var mVers = []string{"1.0.0", "2.1.0-beta1", "1.2.3", "x", "", "v1.0.0", "1.0"}
-var mSrcAddrs = []string{"git::https://example.com/p0.git", "git::https://example.com/p1.git//m", "https://example.com/a2.tar.gz//m/n", "nope", "git::https://example.com/zz.git"}
+var mSrcAddrs = []string{"git::https://example.com/p0.git", "git::https://example.com/p1.git//m", "https://example.com/a2.tar.gz//m/n", "nope", "git::https://example.com/zz.git",
+	// percent-escaped dot segments are literal sub-path characters: the lookup stays inside the package (seed C18-d)
+	"git::https://example.com/p0.git//%2e%2e/%2e%2e", "git::https://example.com/p1.git//m/%2E%2E/%2e%2e/%2e%2e/x"}
 
 func genManifest(r *Rng) *jManifest {
 	m := &jManifest{Format: 1}
